@@ -485,4 +485,64 @@ theorem logD_success (cfg : Cfg) : ∀ (e : FExpr) (v : Numeric), denote cfg e =
           · exact b1 q h'
           · exact a1 q h'
 
+/-! ### Plain numbers: the denotation is exact rational arithmetic -/
+
+/-- The value of an expression all of whose looked-up constants are plain numbers (empty unit),
+by the independent specification `Spec.Arith.applyBin` (exact rational arithmetic); `none` when a
+phrase is unknown or carries a unit, or an operation is undefined. -/
+def plainVal (db : Db) : FExpr → Option Rat
+  | .lit l => some (value l)
+  | .fact first more =>
+    match db (phraseText first more) with
+    | .found c => if c.unit = [] then some c.value else none
+    | _ => none
+  | .paren e => plainVal db e
+  | .bin op a b =>
+    match plainVal db a, plainVal db b with
+    | some x, some y => (applyBin op x y).toOption
+    | _, _ => none
+
+theorem arithV_plain (cfg : Cfg) (op : BinOp) (x y v : Rat) (h : applyBin op x y = .ok v) :
+    arithV cfg op (plain x) (plain y) = .ok (plain v) := by
+  have := bin_outcome cfg op 0 0 x y []
+  rw [h] at this
+  simp only [Outcome] at this
+  simp only [arithV, this]
+
+theorem denote_plain (cfg : Cfg) : ∀ (e : FExpr) (v : Rat), plainVal cfg.db e = some v →
+    denote cfg e = .ok (plain v)
+  | .lit l, v, h => by
+    simp only [plainVal, Option.some.injEq] at h
+    simp only [denote, h]
+  | .fact f m, v, h => by
+    simp only [plainVal] at h
+    simp only [denote, lookupV]
+    split at h
+    · rename_i c hc
+      split at h
+      · rename_i hu
+        simp only [Option.some.injEq] at h
+        rw [hc]
+        simp only [plain, ← h, ← hu]
+      · cases h
+    · cases h
+  | .paren e, v, h => by
+    simp only [plainVal] at h
+    simp only [denote, denote_plain cfg e v h]
+  | .bin op a b, v, h => by
+    simp only [plainVal] at h
+    split at h
+    · rename_i x y hx hy
+      have ha := denote_plain cfg a x hx
+      have hb := denote_plain cfg b y hy
+      cases hap : applyBin op x y with
+      | error z => rw [hap] at h; cases h
+      | ok w =>
+        rw [hap] at h
+        simp only [Except.toOption, Option.some.injEq] at h
+        subst h
+        simp only [denote, ha, hb, arithV_plain cfg op x y w hap]
+        split <;> rfl
+    · cases h
+
 end Anything.FQ
